@@ -50,10 +50,10 @@ def corrupt_idx(b):
 WIN_EXPECTED = [   # (cfg, violated invariant, label)
     ("Revert_win_x_purgefirst.cfg", "AnswersAsTwin", "cache purged only when the first block of a window is reverted"),
     ("Revert_win_x_keepwindow.cfg", "DiskAsTwin", "re-opened window left on disk"),
-    ("Revert_win_x_keepwindow_next.cfg", "NextAsTwin", "re-opened window left on disk, then crash: Store refused"),
-    ("Revert_win_x_snapshot.cfg", "AnswersAsTwin", "shutdown snapshot not consumed"),
 ]
 WIN_EXPECTED_THOROUGH = [
+    ("Revert_win_x_keepwindow_next.cfg", "NextAsTwin", "re-opened window left on disk, then crash: Store refused"),
+    ("Revert_win_x_snapshot.cfg", "AnswersAsTwin", "shutdown snapshot not consumed"),
     ("Revert_win_x_noclear.cfg", "DiskAsTwin", "reverted block's column not cleared"),
     ("Revert_win_x_purgeallbutlast.cfg", "AnswersAsTwin", "cache purged at every offset but the last block of a window"),
 ]
@@ -91,14 +91,17 @@ def win_kills(b):
 WIN_KILLS_EACH = 2      # behaviours kept per alternative mechanism (in different situations if there are)
 
 
-def win_behaviours(ctx, n_pick, runs, depth):
+def win_behaviours(ctx, n_pick, runs, depth, base=8190, tag=""):
     """Many cheap simulated behaviours, of which a few are kept: first, for every alternative
     mechanism of the model (MCRevertWin!AltMechs) behaviours that distinguish it from the code's
     mechanism; then a greedy cover of the situation triples. Deterministic per seed."""
     pool, alts = [], set()
+    with open("%s/spec/chain/Revert_win_sim.cfg" % vlib.VERIF) as f:
+        cfg = f.read().replace("Base = 8190", "Base = %d" % base)
     for i in range(runs + 2):
-        pool += ctx.tlc_simulate("chain", "RevertWinMBT.tla", "Revert_win_sim.cfg", depth=depth,
-                                 seed=ctx.seed * 1000 + 700 + i, timeout=600)
+        pool += ctx.tlc_simulate("chain", "RevertWinMBT.tla", "gen_Revert_win_sim.cfg", depth=depth,
+                                 seed=ctx.seed * 1000 + 700 + i + (0 if base == 8190 else 50), timeout=600,
+                                 files={"gen_Revert_win_sim.cfg": cfg})
         kills = [win_kills(b) for b in pool]
         alts = set().union(*[set(k) for k in kills])
         if i + 1 >= runs and len(alts) >= 6:
@@ -127,8 +130,8 @@ def win_behaviours(ctx, n_pick, runs, depth):
         best = max(cands, key=lambda i: (len(feats[i] - covered), -i))
         picked.append(best)
         covered |= feats[best]
-    ctx.coverage["window_situation_triples"] = "%d of %d seen in %d generated behaviours" % (len(covered), len(universe), len(pool))
-    ctx.coverage["window_alternative_mechanisms_distinguished"] = {
+    ctx.coverage["window_situation_triples" + tag] = "%d of %d seen in %d generated behaviours" % (len(covered), len(universe), len(pool))
+    ctx.coverage["window_alternative_mechanisms_distinguished" + tag] = {
         alt: sum(1 for i in picked if alt in kills[i]) for alt in sorted(alts)}
     return [{"seed": ctx.seed * 100000 + 70000 + i, "steps": pool[i]} for i in picked]
 
@@ -153,11 +156,18 @@ def window_part(ctx, binary, thorough):
         vlib.require_actions_covered(r, ignore=("Sweep",))
         ctx.tlc_check("chain", "MCRevertWin.tla", "Revert_win_w4.cfg", timeout=3000)
         ctx.tlc_check("chain", "MCRevertWin.tla", "Revert_win_minpurge.cfg", timeout=900)
-    wbs = win_behaviours(ctx, 60 if thorough else 14, 3 if thorough else 1, 15 * (400 if thorough else 300))
+    wbs = win_behaviours(ctx, 60 if thorough else 12, 3 if thorough else 1, 15 * (400 if thorough else 250))
     payload = {"w": 8192, "base": 8190, "behaviours": wbs}
     res = run_engine_keep(ctx, binary, "TestRevertWindowReplay", payload, timeout=3000)
     ctx.absorb(res, "statehist", "TestRevertWindowReplay")
     ctx.coverage["window_behaviours"] = len(wbs)
+    if thorough and not ctx.violations:
+        # the same boundary one window up: the base image holds a complete (persisted) window, the
+        # rebuild after a crash anchors on it, queries cache two windows
+        w2 = win_behaviours(ctx, 24, 2, 15 * 400, base=16382, tag="_base16382")
+        res = run_engine_keep(ctx, binary, "TestRevertWindowReplay", {"w": 8192, "base": 16382, "behaviours": w2}, timeout=3000)
+        ctx.absorb(res, "statehist", "TestRevertWindowReplay")
+        ctx.coverage["window_behaviours_base16382"] = len(w2)
     return wbs
 
 
